@@ -3,7 +3,7 @@ CONSTANTS
   NConn = 2
   MaxIn = 4
   MaxSteps = 99
-  Classes = {"GoodKA", "GoodClose", "BadLine", "BadHeader", "BadCL", "BadChunk", "BadEscape", "Nul", "TlsHello", "TlsCut", "Truncate", "Rest"}
+  Classes = {"GoodKA", "GoodClose", "GoodHead", "BadLine", "BadHeader", "BadCL", "BadChunk", "BadEscape", "Nul", "TlsHello", "TlsCut", "Truncate", "Rest"}
   Racing = TRUE
   Linger = TRUE
   DefectSets = {{"stalebuf"}}
